@@ -7,6 +7,7 @@ func init() {
 	vfHarnesses["C09_point_line"] = vfhC09PointLine
 	vfHarnesses["C09_line_line"] = vfhC09LineLine
 	vfHarnesses["C09_point_triangle"] = vfhC09PointTriangle
+	vfHarnesses["C09_multipoint_line"] = vfhC09MultiPointLine
 }
 
 func vfhC09PointPoint() {
@@ -69,5 +70,38 @@ func vfhC09PointTriangle() {
 	} else {
 		vfReach("outside")
 	}
+	vfReach("end")
+}
+
+// Intersects(MultiPoint of 2 with an EMPTY member at a symbolic position,
+// LineString / MultiLineString / Point / MultiPoint) == some point is shared.
+func vfhC09MultiPointLine() {
+	p, q, a, b := vfPt("p"), vfPt("q"), vfPt("a"), vfPt("b")
+	vfAssume(!vfEqXY(a, b))
+	pts := []Point{vfPointXY(p), vfPointXY(q)}
+	e := NewEmptyPoint(DimXY)
+	switch vfInt("empty-at", 0, 3) {
+	case 0:
+		pts = []Point{e, pts[0], pts[1]}
+	case 1:
+		pts = []Point{pts[0], e, pts[1]}
+	case 2:
+		pts = []Point{pts[0], pts[1], e}
+	}
+	mp := NewMultiPoint(pts).AsGeometry()
+	var other Geometry
+	var want bool
+	switch vfInt("other", 0, 3) {
+	case 0:
+		other, want = vfLineXY(a, b).AsGeometry(), vfOr(vfOnSeg(p, a, b), vfOnSeg(q, a, b))
+	case 1:
+		other, want = NewMultiLineString([]LineString{LineString{}, vfLineXY(a, b)}).AsGeometry(), vfOr(vfOnSeg(p, a, b), vfOnSeg(q, a, b))
+	case 2:
+		other, want = vfPointXY(a).AsGeometry(), vfOr(vfEqXY(p, a), vfEqXY(q, a))
+	default:
+		other, want = NewMultiPoint([]Point{e, vfPointXY(a), vfPointXY(b)}).AsGeometry(), vfOr(vfOr(vfEqXY(p, a), vfEqXY(q, a)), vfOr(vfEqXY(p, b), vfEqXY(q, b)))
+	}
+	vfAssert(Intersects(mp, other) == want, "Intersects(MultiPoint, other) is some-point-shared, whatever the position of the EMPTY member")
+	vfAssert(Intersects(other, mp) == want, "symmetric")
 	vfReach("end")
 }
